@@ -76,8 +76,10 @@ Proof.
   cbn [size buckets free]. rewrite Hk.
   split; [|split; [reflexivity|split; [reflexivity|split; [reflexivity|split; [reflexivity|]]]]].
   - unfold HashProofs.abs. cbn [order]. rewrite map_upd. unfold HashProofs.ent at 1. cbn [nkey nval]. reflexivity.
-  - apply (chains_ok_set_order K hash t); auto. rewrite map_upd. cbn [nkey].
-    apply upd_same. unfold HashProofs.keys. rewrite nth_error_map', Hn. cbn [option_map]. rewrite Hk. reflexivity.
+  - apply (chains_ok_set_order K hash t); auto.
+    + rewrite map_upd. cbn [nkey].
+      apply upd_same. unfold HashProofs.keys. rewrite nth_error_map', Hn. cbn [option_map]. rewrite Hk. reflexivity.
+    + apply (last_slot_upd K r n _ (order t) Hn). reflexivity.
 Qed.
 
 (* HashSet, PoolMap: the table is left exactly as it was (entry, chains, free list), for every
